@@ -1,0 +1,5 @@
+//go:build !verif
+
+package pcache
+
+func verifPoint(string) {}
